@@ -97,6 +97,21 @@ def cases(tier):
         g = "@guppy\ndef addc(x: float, c: float @comptime) -> float:\n    return x * c - c\n"
         sp = f"@guppy\ndef addc(x: float) -> float:\n    return x * {v} - {v}\n"
         out.append((f"comptime-float[{v}]", g, sp, [f'result("s", addc(a, {v}))'], ['result("s", addc(a))'], "a: float", [("float",)]))
+    # two instantiations in ONE program whose comptime arguments are equal for Python (`0.0 == -0.0`, `1 == True`) but not the same
+    g = "@guppy\ndef inv(x: float, c: float @comptime) -> float:\n    return x / c\n"
+    sp = "@guppy\ndef inv_p(x: float) -> float:\n    return x / 0.0\n\n@guppy\ndef inv_n(x: float) -> float:\n    return x / comptime(-0.0)\n"
+    for order in ("pos-first", "neg-first"):
+        calls_g = ['result("p", inv(a, 0.0))', 'result("n", inv(a, comptime(-0.0)))']
+        calls_s = ['result("p", inv_p(a))', 'result("n", inv_n(a))']
+        if order == "neg-first":
+            calls_g.reverse()
+            calls_s.reverse()
+        out.append((f"comptime-float-signed-zero[{order}]", g, sp, calls_g, calls_s, "a: float", [("float",)]))
+    g = ("TV = guppy.type_var(\"TV\", copyable=True, droppable=True)\n\n@guppy\ndef konst(c: TV @comptime) -> TV:\n    return c\n")
+    sp = "@guppy\ndef k_int() -> int:\n    return 1\n\n@guppy\ndef k_bool() -> bool:\n    return True\n\n@guppy\ndef k_float() -> float:\n    return 1.0\n"
+    out.append(("comptime-equal-values-of-different-types[1,True,1.0]", g, sp,
+                ['result("i", konst(1))', 'result("b", konst(True))', 'result("f", konst(1.0))'],
+                ['result("i", k_int())', 'result("b", k_bool())', 'result("f", k_float())'], "a: int", [("int",)]))
     for v in ("True", "False"):
         g = "@guppy\ndef sel(x: int, y: int, c: bool @comptime) -> int:\n    if c:\n        return x\n    return y\n"
         sp = f"@guppy\ndef sel(x: int, y: int) -> int:\n    if {v}:\n        return x\n    return y\n"
